@@ -1390,7 +1390,10 @@ class FortranFile:
                 link_name: str = None
                 procedure_def = False
                 if obj_info.var_type[:3] == "PRO":
-                    if file_ast.current_scope.get_type() == INTERFACE_TYPE_ID:
+                    if (
+                        file_ast.current_scope is not None
+                        and file_ast.current_scope.get_type() == INTERFACE_TYPE_ID
+                    ):
                         for var_name in obj_info.var_names:
                             file_ast.add_int_member(var_name)
                         log.debug("%s !!! INTERFACE-PRO - Ln:%d", line.strip(), line_no)
